@@ -79,6 +79,9 @@ static int open_channel(void)
 static void fresh(void)
 {
 	int i;
+	/* release the channel of the previous history (its device is discarded anyway): without this every replayed history leaks a channel
+	 * with its cache buffers, which adds up to tens of GB at depth 5 */
+	if (ch) { vdev_fail_at = -1; vdev_fail_sticky = 0; io_channel_close(ch); ch = NULL; }
 	vdev_reset_all(); vdev_require_align = 0;
 	struct vdev_file *f = vdev_create("dev", DEVBYTES);
 	for (i = 0; i < DEVBYTES; i++) f->cur[i] = f->durable[i] = model[i] = (unsigned char)(0x40 + (i >> 9) + (i & 1));
